@@ -542,8 +542,34 @@ class Ev:
         self._comp(n, n.generators, self.env, out, n.elt)
         return out
 
+    def _comp_lazy(self, gens, env, elt, first=None):
+        """generator semantics: elements are produced on demand (a consumer that stops early - any / all / next -
+        leaves the side effects of the remaining elements undone)"""
+        if not gens:
+            yield self._mk(self.mod, env, self.self_cls, self.depth).ev(elt)
+            return
+        g = gens[0]
+        it = first if first is not None else self._mk(self.mod, env, self.self_cls, self.depth).ev(g.iter)
+        if isinstance(it, ClassRef) and self.is_enum(it.ci):
+            it = self.enum_members(it.ci)
+        n = 0
+        for v in it:
+            n += 1
+            if n > _MAX_ITEMS:
+                raise Unknown("generator too large")
+            e2 = dict(env)
+            self._bind(g.target, v, e2)
+            sub = self._mk(self.mod, e2, self.self_cls, self.depth)
+            if all(sub.ev(c) for c in g.ifs):
+                for x in self._comp_lazy(gens[1:], e2, elt):
+                    yield x
+
     def ev_GeneratorExp(self, n):
-        return self.ev_ListComp(n)
+        # the outermost iterable is evaluated at once, everything else when the generator is consumed
+        first = self.ev(n.generators[0].iter)
+        if isinstance(first, ClassRef) and self.is_enum(first.ci):
+            first = self.enum_members(first.ci)
+        return self._comp_lazy(n.generators, self.env, n.elt, first=first)
 
     def ev_SetComp(self, n):
         return set(self.ev_ListComp(n))
